@@ -55,7 +55,7 @@ SIGNATURE_CONSISTENCY_ALG = int64(
     int32[:, :, :],  # shr_domains_stack
     bool[:, :],  # not_entailed_propagators_stack
     uint16[:, :],  # dom_update_stack
-    uint8[:],  # stacks_top
+    uint16[:],  # stacks_top
     bool[:],  # triggered_propagators
     int64[:],  # compute_domains_addrs
     uint16[:],  # decision_domains
@@ -65,16 +65,18 @@ SIGNATURE_DOM_HEURISTIC = int64(
     int32[:, :, :],  # shr_domains_stack
     bool[:, :],  # not_entailed_propagators_stack
     uint16[:, :],  # dom_update_stack
-    uint8[:],  # stacks_top
+    uint16[:],  # stacks_top
     int64,  # dom_idx
 )
 SIGNATURE_VAR_HEURISTIC = int64(
     int64[:, :],  # var_heuristic_params
     uint16[:],  # decision_variables
     int32[:, :, :],  # shr_domains_stack
-    uint8[:],  # stacks_top
+    uint16[:],  # stacks_top
 )
 
+
+STACK_MAX_HEIGHT_LIMIT = (1 << 16) - 4  # the index of the top of the stacks is stored as an uint16
 
 TYPE_COMPUTE_DOMAINS = types.FunctionType(SIGNATURE_COMPUTE_DOMAINS)
 TYPE_DOM_HEURISTIC = types.FunctionType(SIGNATURE_DOM_HEURISTIC)
